@@ -2,6 +2,7 @@ import ZCV.SExp
 import ZCV.Gen.CodeDatatypes
 import ZCV.Gen.CodeSubstitution
 import ZCV.Gen.CodeCmdline
+import ZCV.Gen.CodeUrl
 import ZCV.Model.Datatypes
 /-!
 Second line-protocol driver: runs the GENERATED code (`ZCV/Gen/Code*.lean`, the translation of the Python source by
@@ -17,6 +18,9 @@ generated `timedelta` takes as a parameter); no lemma.  Same S-expression conven
   (code "timedelta" "text")                         constructor accepting everything              → (ok (w d h m s)), each none | "float literal"  | (err <Class>)
   (code "addOption" "spec") / (code "addOption-pos" "spec")   without / with pos = ("u", 3, 4)    → (ok (tup (list (s "a") …) (s "val") (tup (s url) (i l) (i c)))) | (err (cfgsyntax url line col specifier))
   (code "bag-basic-key" "text")  (code "bag-normalize-case" "text")   OptionBag.basic_key(text, ("u", 3, 4)), _normalize_case
+  (code "urlnormalize" "url")                        ZConfig.url.urlnormalize
+  (urlwrap urljoin "base" "rel" (ok "u")|(err Class))   ZConfig.url.urljoin, the answer of urllib's urljoin given   → (ok (s "…")) | (err Class)
+  (urlwrap urldefrag "url" (ok "u" "frag")|(err Class))  ZConfig.url.urldefrag, the answer of urllib's urldefrag given → (ok (tup (s "…") (s "…"))) | (err Class)
   (code "isname" "text")                                                                    → (ok (b t|f))
   (code "_split" "text")                                                                    → (ok (tup p name namecase suffix vtype)) | (err (syntax))
 values: (s "…") (i n) (b t|f) none (list …) (tup …), as `Codec.encVal` writes them.
@@ -37,6 +41,11 @@ def excName : PyExc → SExp
   | .SubstitutionReplacementError s n => .list [.atom "missing", .str s, ofOpt .str n]
   | .ConfigurationSyntaxError u l c sp => .list [.atom "cfgsyntax", ofOpt .str u, ofOpt ofInt l, ofOpt ofInt c, ofOpt .str sp]
   | .Other n => .str n
+
+def excOf (c : String) : PyExc :=
+  match c with
+  | "ValueError" => .ValueError | "TypeError" => .TypeError | "OverflowError" => .OverflowError | "IndexError" => .IndexError
+  | _ => .Other c.toList
 
 def res {α} (f : α → SExp) : Except PyExc α → SExp
   | .ok v => .list [.atom "ok", f v]
@@ -94,11 +103,23 @@ def handle (st : DState) : SExp → DState × SExp
       | "addOption-pos" => res vItem (Gen.Code.addOption s (some ("u".toList, 3, 4)))
       | "bag-basic-key" => res vStr (Gen.Code.OptionBag_basic_key Gen.Code.basic_key s ("u".toList, 3, 4))
       | "bag-normalize-case" => res vStr (Gen.Code.OptionBag_normalize_case s)
+      | "urlnormalize" => res vStr (Gen.Code.urlnormalize s)
       | "substitute" => res .str (Gen.Code.substitute (assocFn st.env) s (assocFn st.defs))
       | "isname" => res vBool (Gen.Code.isname s)
       | "_split" => res (fun t => .list [.atom "tup", vStr t.1, vOptStr t.2.1, vOptStr t.2.2.1, vOptStr t.2.2.2.1, vOptStr t.2.2.2.2])
                       (Gen.Code._split s)
       | _ => .list [.atom "bad-request", .atom "unknown-function"])
+  -- url.py wrappers: the answer of the urllib function (computed by the harness with the real urllib) is the parameter
+  | .list [.atom "urlwrap", .atom "urljoin", .str b, .str r, given] =>
+    (st, match given with
+      | .list [.atom "ok", .str u] => res vStr (Gen.Code.urljoin (fun _ _ => .ok u) b r)
+      | .list [.atom "err", .atom c] => res vStr (Gen.Code.urljoin (fun _ _ => .error (excOf c)) b r)
+      | _ => .list [.atom "bad-request", .atom "urlwrap"])
+  | .list [.atom "urlwrap", .atom "urldefrag", .str u, given] =>
+    (st, match given with
+      | .list [.atom "ok", .str v, .str f] => res (fun t => .list [.atom "tup", vStr t.1, vStr t.2]) (Gen.Code.urldefrag (fun _ => .ok (v, f)) u)
+      | .list [.atom "err", .atom c] => res (fun t => .list [.atom "tup", vStr t.1, vStr t.2]) (Gen.Code.urldefrag (fun _ => .error (excOf c)) u)
+      | _ => .list [.atom "bad-request", .atom "urlwrap"])
   | .list [.atom "ping"] => (st, .atom "pong")
   | _ => (st, .list [.atom "bad-request"])
 
